@@ -56,7 +56,7 @@ def make_kwargs_factory(kind, base, status_mode="ok", recv_mode="ok", with_send=
                     # 'whatever the peer does': the traffic includes an undecodable packet and a well-framed one the decoder raises on
                     script=[it_connect, it_feed(a[:7]), it_feed(a[7:]), it_feed(pk["BAD"] + pk["RAISE"]), it_feed(pk["A2"])]
                            + ([it_send(lambda: clientkit.heading_message(66))] if with_send else []),
-                    specials=sp, deviations=devs, heal=steady_state(pk["PROBE"]),
+                    specials=sp, deviations=devs, heal=steady_state(pk["PROBE"], second_probe=(recv_mode == "slow")),
                     connect_plan=BASES[base], status_cb=status_mode, recv_cb=recv_mode,
                     settle=330.0, bystander=bystander)      # waits of up to five and a half minutes are followed (a delay capped anywhere below is fine)
     return make
